@@ -87,6 +87,7 @@ class Index:
         self.local_alias = {}
         self.lambda_map = {}
         self.lambda_variants = {}
+        self.template_defaults = {}
         for o in objs:
             self._walk(o, [], False, None)
         self._resolve()
@@ -126,6 +127,13 @@ class Index:
             return
         if k in ('ClassTemplateDecl',):
             first = True
+            dfl = {}
+            for c in n.get('inner', []):
+                if c.get('kind') in ('TemplateTypeParmDecl', 'NonTypeTemplateParmDecl') and 'defaultArg' in c and 'index' in c:
+                    da = c['defaultArg']
+                    v = (da.get('type') or {}).get('qualType') or da.get('value')
+                    if v is not None: dfl[c['index']] = str(v)
+            if dfl: self.template_defaults.setdefault('::'.join(scope + [name]), dfl)
             for c in n.get('inner', []):
                 ck = c.get('kind')
                 if ck == 'CXXRecordDecl':
